@@ -148,6 +148,8 @@ func LoadProgram(goos, goarch string, needSSA bool) (*Program, error) {
 		}
 	}
 	buildCanon(p)
+	theProgram = p
+	foldedTables = map[*ssa.Global]*[]int64{}
 	return p, nil
 }
 
